@@ -49,10 +49,10 @@ Lemma iok_cw ws th i w : iok ws (cw_after_load th i w).
 Proof. unfold cw_after_load. destruct (2 <=? cnt w)%N; simpl; auto. destruct ((cnt w =? 1)%N && negb (oidx_is (proc th) i)); simpl; auto. Qed.
 Lemma push_ok ws b k e : box_ok ws b -> eok ws e -> box_ok ws (fst (push_entry b k e)).
 Proof. intros (H1 & H2) He. destruct k; simpl; split; auto; apply Forall_app; split; auto. Qed.
-Lemma disp_lock_ok ws b oi batch b1 : box_ok ws b -> disp_lock b oi = (batch, b1) -> Forall (eok ws) batch /\ box_ok ws b1.
+Lemma disp_lock_ok ws b oi batch b1 oi' : box_ok ws b -> disp_lock b oi = Some (batch, b1, oi') -> Forall (eok ws) batch /\ box_ok ws b1.
 Proof.
-  intros (H1 & H2). unfold disp_lock. destruct (qi b) eqn:Ei; [destruct oi; [|destruct (qn b) eqn:En]|];
-  intros H; injection H as <- <-; unfold box_ok; simpl; repeat split; auto; congruence.
+  intros (H1 & H2) H. destruct (disp_lock_spec _ _ _ _ _ H) as ((ti & tn & -> & Ei & En) & _).
+  unfold box_ok. rewrite Ei, En. split; [apply Forall_app; split|split]; destruct ti, tn; auto.
 Qed.
 
 Lemma step_inv1 c t c' : inv1 c -> step c t = Some c' -> inv1 c'.
